@@ -169,7 +169,7 @@ ASSUMPTIONS = ["bearing and direction values lie in [0, 2pi) (one pass of the un
                "hand-written over the regenerated branches / list of tests; the adjustment (project_equations + solver) and "
                "refine_approx_coordinates are parameters of the loop model (RA.Env); `if (changed) IS->update_residuals()` is "
                "represented by the adjustment being a function of the current state (caching: C04)",
-               "C06_exact_network_solution_zero: no revised observation names one point in two roles (NoAlias, as C01); the joint "
+               "C06_exact_network_solution_zero (no NoAlias hypothesis since round 12); the joint "
                "non-vacuity instance over R (r10, working tree) is the levelling network Ex.netWexact with a correlated cluster, for cholesky and "
                "gso (existence of the answer by C02_net_answered_iff_resolves, no solver run evaluated); envelope not witnessed; no joint "
                "instance with a distance / direction row",
